@@ -34,6 +34,7 @@ func c08(c *Ctx) {
 	c08nullElements(c, pkg)
 	c08noBypass(c, pkg)
 	c08inheritOnly(c, pkg)
+	c08noSharedContainers(c, pkg)
 	if os.Getenv("GZV_MEMO_SCAN") != "" {
 		for _, pk := range c.P.Pkgs {
 			c.memoKeysDetermine("SCAN", strings.TrimPrefix(pk.PkgPath, mod), 0)
